@@ -77,7 +77,9 @@ mutual
   /-- Continuation after an outcome: record it; an uncaught error propagates. -/
   def after : Outcome → Bool → List Stmt → List Val → List (Nat × Handle) → Prog
     | .ok v, _, rest, obs, sl => compile rest (obs ++ [digest v]) sl
-    | .err e, true, rest, obs, sl => compile rest (obs ++ [obsOf (.err e)]) sl
+    | .err e, true, rest, obs, sl =>
+        -- user code lets invocation-level errors (StepInterruptedError) propagate, as the SDK requires
+        if e.inv then .raise e else compile rest (obs ++ [obsOf (.err e)]) sl
     | .err e, false, _, _, _ => .raise e
 end
 
